@@ -25,7 +25,7 @@ RULE = (
     "predicted to return a NEW object after a modification or eviction and one to return the SAME "
     "object; distinct by (config, operation list)."
 )
-RULE += ' added since: put_string / put_template over cached URIs and get_template of put URIs, has_template vs get_template agreement, postcondition on every put. has_template judged on its own (answers False, never raises a lookup error). freshness through a referring template (include / inherit / namespace / include_file; modify, delete, rewrite, put_string).'
+RULE += ' added since: put_string / put_template over cached URIs and get_template of put URIs, has_template vs get_template agreement, postcondition on every put. has_template judged on its own (answers False, never raises a lookup error). freshness through a referring template (include / inherit / namespace / include_file; modify, delete, rewrite, put_string). op touch: a file rewritten with the same content.'
 ASSUMPTIONS = [
     "virtual clock: mako.codegen.time, mako.util.timeit and the mtime of written module files are "
     "driven by the harness (whole-second steps); sources get their mtime with os.utime",
@@ -448,6 +448,18 @@ def run_history(cfg, ops, res):
             elif k == "write":
                 if op[1] < len(w.dirs):
                     do_write(w, op[1], op[2], op[3])
+            elif k == "touch":
+                # the file is written again with the SAME content, at the current time: it counts as modified (one
+                # reload is due), after which nothing changes any more
+                f = (op[1], op[2])
+                if op[1] < len(w.dirs) and f in w.files:
+                    p_ = w.path(*f)
+                    body_ = open(p_).read()
+                    with open(p_, "w") as fh_:
+                        fh_.write(body_)
+                    now_ = _st["clock"].now
+                    os.utime(p_, (now_, now_))
+                    w.files[f] = dict(w.files[f], mtime=now_)
             elif k == "delete":
                 f = (op[1], op[2])
                 if f in w.files:
@@ -511,7 +523,7 @@ CONFIGS4 = [
 SMALL_ALPHA = [
     ("tick", 1), ("write", 0, "/t0.html", "good"), ("write", 1, "/t0.html", "good"), ("write", 0, "/t0.html", "broken"),
     ("delete", 0, "/t0.html"), ("get", "/t0.html"), ("get", "/t1.html"), ("write", 0, "/t1.html", "good"),
-    ("has", "/t0.html"), ("put_string", "/t0.html"),
+    ("has", "/t0.html"), ("put_string", "/t0.html"), ("touch", 0, "/t0.html"),
 ]
 
 
@@ -525,8 +537,10 @@ def rand_history(r, cfg):
         d = r.randrange(cfg["ndirs"])
         if k < 0.16:
             ops.append(("tick", r.choice([1, 1, 2, 3])))
-        elif k < 0.36:
+        elif k < 0.32:
             ops.append(("write", d, u, "good" if r.random() < 0.8 else "broken"))
+        elif k < 0.36:
+            ops.append(("touch", d, u))
         elif k < 0.42:
             ops.append(("delete", d, u))
         elif k < 0.45:
